@@ -1,6 +1,7 @@
 // calendar driver: pure arithmetic / print-parse / mutation sweeps (C06, C15, C17, C18 C++ side).
 #include "vcommon.h"
 #include <AceTime.h>
+#include <array>
 
 using namespace ace_time;
 using namespace verif;
@@ -130,6 +131,33 @@ static void c06_bytes(int shard, int nshards) {
         witness("c06:error-date-toEpochDays-not-sentinel", "error date converts to a non-sentinel", j);
       }
     }
+  }
+  // the composite types: "invalid field combinations are flagged by isError" whichever half is bad. One component at a
+  // time takes every byte value (the others valid), plus the boundary products; an error value converts to the sentinel.
+  if (shard == 0) {
+    TimeZone utc = TimeZone::forUtc();
+    std::vector<std::array<unsigned, 5>> combos;       // month, day, hour, minute, second
+    for (int comp = 0; comp < 5; comp++) for (unsigned v = 0; v < 256; v++) { std::array<unsigned, 5> c = {{3, 10, 2, 30, 15}}; c[comp] = v; combos.push_back(c); }
+    for (unsigned mo : {0u, 1u, 12u, 13u}) for (unsigned d : {0u, 1u, 31u, 32u}) for (unsigned h : {0u, 23u, 24u, 25u}) for (unsigned mi : {0u, 59u, 60u}) for (unsigned se : {0u, 59u, 60u})
+      combos.push_back({{mo, d, h, mi, se}});
+    for (auto& c : combos) {
+      bool dateOk = c[0] >= 1 && c[0] <= 12 && c[1] >= 1 && c[1] <= 31;
+      bool valid = dateOk && oracle_time_valid(c[2], c[3], c[4]);
+      LocalDateTime ldt = LocalDateTime::forComponents(2019, (uint8_t) c[0], (uint8_t) c[1], (uint8_t) c[2], (uint8_t) c[3], (uint8_t) c[4]);
+      OffsetDateTime odt = OffsetDateTime::forComponents(2019, (uint8_t) c[0], (uint8_t) c[1], (uint8_t) c[2], (uint8_t) c[3], (uint8_t) c[4], TimeOffset::forHours(-8));
+      ZonedDateTime zdt = ZonedDateTime::forComponents(2019, (uint8_t) c[0], (uint8_t) c[1], (uint8_t) c[2], (uint8_t) c[3], (uint8_t) c[4], utc);
+      CNT.add("c06.composite_field_combinations", 3);
+      const char* which = nullptr;
+      if (ldt.isError() == valid || (!valid && ldt.toEpochSeconds() != LocalDate::kInvalidEpochSeconds)) which = "LocalDateTime";
+      else if (odt.isError() == valid || (!valid && odt.toEpochSeconds() != LocalDate::kInvalidEpochSeconds)) which = "OffsetDateTime";
+      else if (zdt.isError() == valid || (!valid && zdt.toEpochSeconds() != LocalDate::kInvalidEpochSeconds)) which = "ZonedDateTime";
+      if (which) { J j; j.str("type", which).num("month", c[0]).num("day", c[1]).num("hour", c[2]).num("minute", c[3]).num("second", c[4]).num("documented_valid", valid);
+        witness("c06:composite-isError-disagrees", "isError of a date-time built from components disagrees with the documented validity of its fields (or an error value converts to a non-sentinel)", j); }
+    }
+    // ... and a valid value edited into an invalid one through a setter
+    LocalDateTime ed = LocalDateTime::forComponents(2019, 3, 10, 2, 30, 15); ed.hour(25);
+    OffsetDateTime eo = OffsetDateTime::forComponents(2019, 3, 10, 2, 30, 15, TimeOffset::forHours(1)); eo.minute(60);
+    if (!ed.isError() || !eo.isError()) { J j; j.num("ldt_isError", ed.isError()).num("odt_isError", eo.isError()); witness("c06:composite-isError-disagrees", "a date-time edited into an invalid time is not flagged", j); }
   }
   LocalTime et = LocalTime::forSeconds(LocalTime::kInvalidSeconds);
   if (!et.isError() || !LocalTime::forError().isError()) { J j; witness("c06:time-sentinel-not-error", "LocalTime sentinel not error", j); }
